@@ -98,7 +98,7 @@ func newSpecFile() *SpecFile {
 	}
 }
 
-var clauseHead = regexp.MustCompile(`^(requires|ensures_on_panic|ensures|maintains|modifies|invariant|iteration|decreases|panics_iff|assert)(\[[^\]]*\])?\s*(.*)$`)
+var clauseHead = regexp.MustCompile(`^(requires|ensures_on_panic|ensures|maintains|modifies|invariant|iteration|decreases|panics_iff|assert|writes_own_objects)(\[[^\]]*\])?\s*(.*)$`)
 
 var knownKeywords = map[string]bool{
 	"func": true, "iface": true, "ghost": true, "chaninv": true, "smtfun": true, "spec": true, "axiom": true, "lemma": true,
@@ -369,9 +369,12 @@ func (sf *SpecFile) load(path string, extern bool) error {
 				if m == nil {
 					return fail(l, "bad loop clause %q", fs[1])
 				}
-				e, err := parseExpr(m[3])
-				if err != nil {
-					return fail(l, "%v", err)
+				var e Expr
+				if m[1] != "writes_own_objects" {
+					e, err = parseExpr(m[3])
+					if err != nil {
+						return fail(l, "%v", err)
+					}
 				}
 				props, label := parsePropsLabel(m[2])
 				key := fmt.Sprintf("loop%d.%s", n, m[1])
